@@ -2,6 +2,7 @@ package main
 
 import (
 	"flag"
+	"go/constant"
 	"fmt"
 	"go/types"
 	"os"
@@ -239,12 +240,106 @@ func run() int {
 			}
 		}
 	}
+	// package-level initialisers pinned to literals
+	for _, gi := range db.GlobalInits {
+		if prop != "" && !hasProp(gi.Props, prop) {
+			continue
+		}
+		if *flagFn != "" {
+			continue
+		}
+		got, ok := globalInitLiteral(l.prog, gi.Name)
+		ck := &Check{Name: gi.Name + "/init#literal", Class: "init", Fn: gi.Name, Props: gi.Props,
+			Info: fmt.Sprintf("package initialiser assigns the literal %q", gi.Lit), Src: gi.Src, Goal: "false"}
+		st := "failed"
+		if ok && got == gi.Lit {
+			st = "trivial"
+			ck.Trivial = true
+		}
+		out := fmt.Sprintf("initialiser literal found: %q (found=%v)", got, ok)
+		rep.Extra = append(rep.Extra, &CheckResult{Check: ck, Status: st, Solver: "ssa-scan", Output: out, Model: out})
+	}
 	rep.GenSecs = time.Since(genStart).Seconds()
 	scfg := solveCfg{dir: workdir, timeoutMs: timeout, workers: runtime.NumCPU(), cross: tier == "thorough", prelude: db.prelude()}
 	solveStart := time.Now()
-	rep.Results = solveAll(allPaths, scfg)
+	rep.Results = append(solveAll(allPaths, scfg), rep.Extra...)
 	rep.SolveSecs = time.Since(solveStart).Seconds()
 	return rep.finish(workdir)
 }
 
 var _ = strconv.Itoa
+
+// globalInitLiteral finds the string constant a package-level variable is
+// initialised from: X = "lit", X = []byte("lit"), X = f("lit") (e.g. regexp.MustCompile).
+func globalInitLiteral(prog *ssa.Program, qname string) (string, bool) {
+	i := strings.LastIndex(qname, ".")
+	if i < 0 {
+		return "", false
+	}
+	pkgPath, name := qname[:i], qname[i+1:]
+	for _, p := range prog.AllPackages() {
+		if p.Pkg.Path() != pkgPath {
+			continue
+		}
+		g, ok := p.Members[name].(*ssa.Global)
+		if !ok {
+			return "", false
+		}
+		init := p.Func("init")
+		if init == nil {
+			return "", false
+		}
+		found := ""
+		n := 0
+		for _, b := range init.Blocks {
+			for _, ins := range b.Instrs {
+				st, ok := ins.(*ssa.Store)
+				if !ok || st.Addr != g {
+					continue
+				}
+				n++
+				if s, ok := constStringOf(st.Val, 0); ok {
+					found = s
+				} else {
+					return "", false
+				}
+			}
+		}
+		// no other function may assign it
+		for fn := range ssautil.AllFunctions(prog) {
+			if fn == init || fn.Pkg != p {
+				continue
+			}
+			for _, b := range fn.Blocks {
+				for _, ins := range b.Instrs {
+					if st, ok := ins.(*ssa.Store); ok && st.Addr == g {
+						return "", false
+					}
+				}
+			}
+		}
+		return found, n == 1
+	}
+	return "", false
+}
+
+func constStringOf(v ssa.Value, depth int) (string, bool) {
+	if depth > 4 {
+		return "", false
+	}
+	switch x := v.(type) {
+	case *ssa.Const:
+		if x.Value != nil && x.Value.Kind() == constant.String {
+			return constant.StringVal(x.Value), true
+		}
+	case *ssa.Convert:
+		return constStringOf(x.X, depth+1)
+	case *ssa.Call:
+		if len(x.Call.Args) == 1 {
+			return constStringOf(x.Call.Args[0], depth+1)
+		}
+	case *ssa.Slice:
+		return constStringOf(x.X, depth+1)
+	}
+	return "", false
+}
